@@ -305,9 +305,16 @@ func sortedObls(obls []*Obligation) {
 
 // useLemma instantiates a proved lemma: checks its requires at the point, then assumes its ensures.
 func (x *Exec) useLemma(st *State, env *SpecEnv, c Clause, where string, idx int) {
-	call, ok := c.E.(*ECall)
+	guard := TTrue
+	ce := c.E
+	if b, ok := ce.(*EBin); ok && b.Op == "==>" {
+		// guarded instantiation: `use cond ==> lemma(args)`
+		guard = asTerm(x.evalSpec(env, b.L))
+		ce = b.R
+	}
+	call, ok := ce.(*ECall)
 	if !ok {
-		fail("use: expected lemma(args)")
+		fail("use: expected [cond ==>] lemma(args)")
 	}
 	lm := x.eng.specs.Lemmas[call.Fn]
 	if lm == nil {
@@ -330,11 +337,11 @@ func (x *Exec) useLemma(st *State, env *SpecEnv, c Clause, where string, idx int
 	}
 	inst.lets = nil
 	for i, r := range lm.Requires {
-		g := asTerm(x.evalSpec(inst, r.E))
+		g := Implies(guard, asTerm(x.evalSpec(inst, r.E)))
 		x.check(st, "lemma-pre", fmt.Sprintf("use/%s/%s#%d.%d", lm.Name, strings.ReplaceAll(where, " ", "-"), idx+1, i+1), g, token.NoPos, r.Src)
 	}
 	for _, en := range lm.Ensures {
-		st.assume(asTerm(x.evalSpec(inst, en.E)), "lemma:"+lm.Name)
+		st.assume(Implies(guard, asTerm(x.evalSpec(inst, en.E))), "lemma:"+lm.Name)
 	}
 	x.eng.usedLemmas[lm.Name] = true
 }
